@@ -407,7 +407,7 @@ func c05Exec(c *Sexp) Outcome {
 	rec := newRecorder(400000)
 	g := buildGrammar(findArg(c, "env"), findArg(c, "root")[0], rec, false, arithInterp, nil)
 	raw0, _ := caseFiles(c)
-	real, val, err, pan := evalCase(c, g.root, [][]byte{[]byte("(1 + 2) * 3"), raw0[0].raw[:len(raw0[0].raw)/2]}, func() { *rec = *newRecorder(400000) })
+	real, val, err, pan := evalCase(c, g.root, [][]byte{[]byte("(1 + 2) * 3"), raw0[0].raw[:len(raw0[0].raw)/2], []byte("7")}, func() { *rec = *newRecorder(400000) })
 	if be, ok := pan.(budgetExceeded); ok {
 		// the harness's own work budget (long expressions of the thorough tier): skipped, never counted as a pass —
 		// an earlier version reported it as "Evaluate panicked": a false alarm of the check, corrected
@@ -693,7 +693,7 @@ func c16Exec(c *Sexp) Outcome {
 	root := combinator.Sentence(text.Trim(exjson.NewParser()))
 	files, _ := caseFiles(c)
 	doc := files[0].raw
-	real, val, err, pan := evalCase(c, root, [][]byte{[]byte(`{"a": [1, 2.5, "x\n"], "b": null}`), doc[:len(doc)/2]}, nil)
+	real, val, err, pan := evalCase(c, root, [][]byte{[]byte(`{"a": [1, 2.5, "x\n"], "b": null}`), doc[:len(doc)/2], []byte("1")}, nil)
 	kind := findArg(c, "kind")[0].Atom
 	dec := encjson.NewDecoder(bytes.NewReader(doc))
 	dec.UseNumber()
